@@ -7,6 +7,8 @@ SPEC = {
         {"name": "TestLocals", "quick": 1600, "thorough": 64000, "shards_quick": 8, "shards_thorough": 16, "timeout": 2400},
         {"name": "TestKnownWitness", "quick": 1, "thorough": 1, "shards": 1, "timeout": 120},
     ],
+    # thorough tier: coverage-guided campaigns over the same generators + oracles (rapid.MakeFuzz)
+    "fuzz": [{"name": "FuzzEquivalence", "seconds": 60}, {"name": "FuzzLocals", "seconds": 60}],
     "rule": ("rapid-generated scenario descriptions (internal/scengen; structural choices are drawn bit by bit from rapid.Bool, so they are "
              "uniform rather than biased to small values): HTTP (60%) or gRPC (40%); 0-3 variable sources (file/csv with "
              "optional fields / ignore_first_line / delimiter, file/json, variables incl. randomisation-function values and bare "
